@@ -318,6 +318,9 @@ func (it *interp) evalFunc(fn *ssa.Function, args []iv) (iv, error) {
 					}
 					gv, ok := it.globals[GlobalName(g)]
 					if !ok {
+						if _, isFn := x.Type().Underlying().(*types.Signature); isFn {
+							continue // a function variable: judged where it is called
+						}
 						if _, isPtr := x.Type().Underlying().(*types.Pointer); isPtr {
 							continue // e.g. a flag variable: its target is loaded next
 						}
